@@ -55,8 +55,8 @@ func TestSim(t *testing.T) {
 func run(t *testing.T, r *core.R) {
 	r.FaultDecl("stall_s2c", "stall_c2s", "fragmented_delivery", "reset_in_handshake", "reset_in_snapshot", "reset_in_deltas",
 		"reset_after_partial_delivery", "connect_refused", "connect_blackholed", "half_open", "governor_limit", "client_stopped",
-		"slow_client_callbacks", "finite_send_buffer", "status_flap", "server_writer_blocked", "slow_reader_scenario")
-	r.ProbeDecl("binary_snapshot_sent", "streamed_snapshot_sent", "binary_snapshot_cache_reused", "client_fell_behind_dropped",
+		"slow_client_callbacks", "finite_send_buffer", "status_flap", "slow_reader_scenario")
+	r.ProbeDecl("server_writer_blocked", "binary_snapshot_sent", "streamed_snapshot_sent", "binary_snapshot_cache_reused", "client_fell_behind_dropped",
 		"grace_period_used", "pong_timeout_drop", "governor_dropped_connection", "snapshot_write_partial_timeout",
 		"server_write_failed", "client_read_failed", "client_reconnected", "client_restart_gave_up", "client_exited_not_restart_aware",
 		"client_start_failed", "insync_checked", "insync_checked_after_reconnect", "insync_from_older_cached_snapshot",
@@ -158,7 +158,8 @@ type harness struct {
 	maxConns int
 	start    time.Time
 
-	steps        uint64
+	act, sub     uint64
+	trace        bool
 	binSent      int
 	binGenerated int
 	sutTrace     bool
@@ -170,6 +171,7 @@ type pairState struct {
 	stallUntil [2]time.Time
 	finiteTill time.Time // s2c buffer is bounded until then (zero: unbounded)
 	sawBlocked bool
+	stallWhenBlocked time.Duration
 }
 
 type slot struct {
@@ -434,8 +436,16 @@ func (h *harness) checkInSync(i *inc) {
 // whole execution; with it, a window's reordering can only matter through what it did inside that window.
 func (h *harness) settle() {
 	synctest.Wait()
-	h.steps++
-	rt.Seed((h.r.Seed ^ 0x7f4a7c15) * 0x9e3779b97f4a7c15 + h.steps*0xbf58476d1ce4e5b9)
+	h.sub++
+	rt.Seed((h.r.Seed^0x7f4a7c15)*0x9e3779b97f4a7c15 + h.act*0xbf58476d1ce4e5b9 + h.sub*0x94d049bb133111eb)
+}
+
+// dbg prints volatile detail (byte counts, which keep-alive travelled when) for a human; it is NOT part of the
+// hashed event log.
+func (h *harness) dbg(format string, a ...interface{}) {
+	if h.trace {
+		fmt.Fprintf(os.Stderr, "      . "+format+"\n", a...)
+	}
 }
 
 // ---------------------------------------------------------------- observing the cache
@@ -567,6 +577,7 @@ func simulate(r *core.R) {
 	h := &harness{r: r, incs: map[string]*inc{}, pairInfo: map[int]*pairState{}, keyName: map[string]int{}, pathIdx: map[string]int{}}
 	h.start = time.Now()
 	h.sutTrace = os.Getenv("VERIF_TYPHA_SUTTRACE") != ""
+	h.trace = os.Getenv("VERIF_TRACE") != ""
 	thorough := r.Tier == "thorough"
 	src := r.Src
 
@@ -889,7 +900,7 @@ func simulate(r *core.R) {
 		}
 		// every draw and all bookkeeping happens BEFORE the call that wakes the dialer and the accept loop
 		lim := 0
-		var stall time.Duration
+		var stall, whenBlocked time.Duration
 		if !h.quiesce && src.Chance(pFinite, "finite_buffer") {
 			lim = []int{48, 160, 700, 3000}[src.Intn(4, "buffer_bytes")]
 			r.Fault("finite_send_buffer")
@@ -897,8 +908,12 @@ func simulate(r *core.R) {
 				stall = h.pick(durs(50, 300, 1000, 3000, 8000), "stall_at_accept_for")
 				r.Fault("stall_s2c")
 			}
+			if wStall > 0 && src.Chance(350, "stall_blocked_writer") {
+				whenBlocked = h.pick(durs(300, 1000, 3000, 8000), "stall_blocked_writer_for")
+				r.Fault("stall_s2c")
+			}
 		}
-		ps := &pairState{inc: i}
+		ps := &pairState{inc: i, stallWhenBlocked: whenBlocked}
 		h.mu.Lock()
 		h.observe()
 		i.connN++
@@ -998,196 +1013,241 @@ func simulate(r *core.R) {
 	}
 
 	// ---- chaos phase
+	//
+	// The list of actions and their weights is FIXED for the whole run and every action makes the same draws
+	// whether or not it finds something to do.  What a draw means therefore never depends on volatile transport
+	// state (is a ping in flight right now?), only on the draw sequence and on stable structure (slots, pairs in
+	// creation order).  A sub-millisecond difference in SUT timing then shifts when a keep-alive is carried, not
+	// what every later draw means.  Volatile detail goes to dbg (stderr with VERIF_TRACE), not to the hashed log.
 	for ; preBursts > 0; preBursts-- {
+		h.act++
+		h.sub = 0
 		feedBurst()
 	}
+	dirs := []simnet.Dir{simnet.C2S, simnet.S2C}
+	curPair := func(s *slot) *pairState {
+		if s.cur == nil {
+			return nil
+		}
+		h.mu.Lock()
+		p := s.cur.pair
+		h.mu.Unlock()
+		if p == nil {
+			return nil
+		}
+		ps := h.pairInfo[p.ID]
+		if ps == nil || p.Dead() || p.IsCut() || p.IsReset() {
+			return nil
+		}
+		return ps
+	}
+	// deliverOne hands over what is in flight on one direction (frag eighths of it if frag > 0).
+	deliverOne := func(ps *pairState, d simnet.Dir, frag int) bool {
+		if ps.p.Dead() || !readerOpen(ps, d) || time.Now().Before(ps.stallUntil[d]) {
+			return false
+		}
+		if n := ps.p.InFlight(d); n > 0 {
+			k := n
+			if frag > 0 {
+				if k = n * frag / 8; k < 1 {
+					k = 1
+				}
+			}
+			h.dbg("deliver pair %d %v %d of %d bytes", ps.p.ID, d, k, n)
+			ps.p.Deliver(d, k)
+			h.settle()
+			return true
+		}
+		if ps.p.FinPending(d) {
+			h.dbg("deliver pair %d %v FIN", ps.p.ID, d)
+			ps.p.DeliverFin(d)
+			h.settle()
+			return true
+		}
+		return false
+	}
+	nSweep := 0
+	// sweep: one pass over every connection in creation order; slow clients are only served every speed-th pass.
+	sweep := func(frag int, all bool) bool {
+		nSweep++
+		did := false
+		base := h.sub
+		for _, p := range h.net.Pairs() {
+			ps := h.pairInfo[p.ID]
+			if ps == nil || p.Dead() {
+				continue
+			}
+			for di, d := range dirs {
+				h.sub = base + uint64(p.ID)*8 + uint64(di)*4
+				if d == simnet.S2C && !all && nSweep%ps.inc.slot.speed != 0 {
+					continue
+				}
+				if deliverOne(ps, d, frag) {
+					frag = 0
+					did = true
+				}
+			}
+		}
+		h.sub = base + 1<<24
+		return did
+	}
+	slotDraw := func(label string) *slot { return h.slots[src.Intn(len(h.slots), label)] }
+	lag := 5*h.maxFallBehind/2 + h.grace
+	acts := []action{
+		{60, func() { // sweep
+			frag := 0
+			if src.Chance(pFragment, "sched_fragment") {
+				frag = src.Range(1, 7, "sched_chunk_eighths")
+				r.Fault("fragmented_delivery")
+			}
+			r.Logf("sweep (first delivery %d/8)", frag)
+			sweep(frag, false)
+		}},
+		{15, func() { // one direction of one client's current connection
+			s := slotDraw("sched_slot")
+			d := dirs[src.Intn(2, "sched_dir")]
+			frag := src.Intn(8, "sched_one_eighths")
+			r.Logf("deliver c%d %v (%d/8)", s.id, d, frag)
+			if ps := curPair(s); ps != nil {
+				deliverOne(ps, d, frag)
+			}
+		}},
+		{25, func() { // decide the oldest pending dial
+			refuse := src.Chance(pRefuse, "refuse")
+			blackhole := src.Chance(pBlackhole, "dial_blackhole")
+			pend := h.net.Pending()
+			if len(pend) == 0 {
+				r.Logf("dial decision: nothing pending")
+				return
+			}
+			d := pend[0]
+			switch {
+			case refuse:
+				r.Fault("connect_refused")
+				r.Logf("refuse dial %s", d.Addr)
+				h.net.Refuse(d)
+			case blackhole:
+				r.Fault("connect_blackholed")
+				r.Logf("blackhole dial %s until its timeout", d.Addr)
+				advance(h.net.DialTimeout)
+			default:
+				acceptDial(d)
+			}
+		}},
+		{wTime, func() {
+			d := durs(1, 5, 20, 100, 500, 2000)[src.Weighted([]int{6, 5, 4, 3, 2, 1}, "sched_dt")]
+			r.Logf("advance %v", d)
+			advance(d)
+		}},
+		{wFeed, feedBurst},
+		{8, func() { // (re)start a client in a free slot
+			s := slotDraw("start_slot")
+			if alive(s.cur) {
+				r.Logf("start client: slot %d is busy", s.id)
+				return
+			}
+			newInc(s)
+		}},
+		{wStall, func() {
+			s := slotDraw("stall_slot")
+			d := dirs[1-src.Intn(2, "stall_dir")] // index 0 = the common case: slow reader at the client
+			dur := h.pick(durs(50, 300, 1000, 3000, 8000, 40000), "stall_for")
+			r.Fault("stall_" + d.String())
+			r.Logf("stall c%d %v for %v", s.id, d, dur)
+			if ps := curPair(s); ps != nil {
+				ps.stallUntil[d] = time.Now().Add(dur)
+			}
+		}},
+		{wStall, func() {
+			// slow-reader scenario: a young connection with a bounded send buffer stops being read while upstream
+			// keeps changing and time passes, so the server's sender blocks and falls behind
+			s := slotDraw("slow_reader_slot")
+			ps := curPair(s)
+			if ps == nil || ps.finiteTill.IsZero() || ps.finiteTill.Sub(time.Now()) < lag+lag/4 {
+				r.Logf("slow reader scenario: c%d has no young bounded connection", s.id)
+				return
+			}
+			ps.stallUntil[simnet.S2C] = time.Now().Add(lag)
+			r.Fault("slow_reader_scenario")
+			r.Logf("slow reader: c%d s2c stalled for %v while upstream keeps writing", s.id, lag)
+			for n := 0; n < 5; n++ {
+				feedBurst()
+				advance(lag / 5)
+			}
+		}},
+		{wReset, func() {
+			s := slotDraw("reset_slot")
+			partial := src.Chance(500, "reset_after_partial")
+			f := src.Range(1, 7, "reset_chunk_eighths")
+			ps := curPair(s)
+			if ps == nil {
+				r.Logf("reset c%d: not connected", s.id)
+				return
+			}
+			if partial {
+				deliverOne(ps, simnet.S2C, f)
+			}
+			ph := phaseOf(ps)
+			r.Fault("reset_in_" + ph)
+			r.Logf("reset c%d (%s, after partial delivery %v)", s.id, ph, partial)
+			ps.p.Reset()
+		}},
+		{wCut, func() {
+			s := slotDraw("cut_slot")
+			ps := curPair(s)
+			if ps == nil {
+				r.Logf("cut c%d: not connected", s.id)
+				return
+			}
+			r.Fault("half_open")
+			r.Logf("cut c%d (half-open until timeouts)", s.id)
+			unbound(ps)
+			ps.p.Cut()
+		}},
+		{wGovern, func() {
+			n := src.Intn(len(h.slots)+1, "governor_max")
+			if h.maxConns < 1000 {
+				n = 1000
+			}
+			r.Fault("governor_limit")
+			r.Op("SetMaxConns(%d)", n)
+			setMaxConns(n)
+		}},
+		{wChurn, func() {
+			s := slotDraw("churn_slot")
+			if !alive(s.cur) {
+				r.Logf("stop client: slot %d is empty", s.id)
+				return
+			}
+			r.Fault("client_stopped")
+			r.Op("stop client %s", s.cur.name)
+			stopClient(s.cur)
+		}},
+	}
+	ws := weights(acts)
 	for step := 0; step < nSteps; step++ {
+		h.act++
+		h.sub = 0
 		h.settle()
 		h.mu.Lock()
 		h.observe()
 		h.mu.Unlock()
-		now := time.Now()
-		var acts []action
-		add := func(w int, fn func()) {
-			if w > 0 {
-				acts = append(acts, action{w, fn})
-			}
-		}
-		pairs := livePairs()
-		for _, ps := range pairs {
+		for _, ps := range livePairs() {
 			if !ps.sawBlocked && ps.p.WriterBlocked(simnet.S2C) {
 				ps.sawBlocked = true
-				r.Fault("server_writer_blocked")
-				if wStall > 0 && src.Chance(350, "stall_blocked_writer") {
-					dur := h.pick(durs(300, 1000, 3000, 8000), "stall_blocked_writer_for")
-					ps.stallUntil[simnet.S2C] = now.Add(dur)
-					r.Fault("stall_s2c")
-					r.Logf("pair %d: server writer is blocked, s2c stalled for %v", ps.p.ID, dur)
+				r.Probe("server_writer_blocked")
+				if ps.stallWhenBlocked > 0 {
+					ps.stallUntil[simnet.S2C] = time.Now().Add(ps.stallWhenBlocked)
+					h.dbg("pair %d: server writer is blocked, s2c stalled for %v", ps.p.ID, ps.stallWhenBlocked)
 				}
 			}
 		}
-		// deliveries first: with an all-zero choice sequence everything is delivered whole and in order
-		for _, ps := range pairs {
-			for _, d := range []simnet.Dir{simnet.C2S, simnet.S2C} {
-				ps, d := ps, d
-				if !readerOpen(ps, d) || now.Before(ps.stallUntil[d]) {
-					continue
-				}
-				w := 3 * ps.inc.slot.speed
-				if d == simnet.C2S {
-					w = 60
-				}
-				if n := ps.p.InFlight(d); n > 0 {
-					add(w, func() {
-						if src.Chance(pFragment, "sched_fragment") {
-							f := src.Range(1, 7, "sched_chunk_eighths")
-							k := n * f / 8
-							if k < 1 {
-								k = 1
-							}
-							r.Fault("fragmented_delivery")
-							r.Logf("deliver pair %d %v %d/8", ps.p.ID, d, f)
-							ps.p.Deliver(d, k)
-						} else {
-							r.Logf("deliver pair %d %v all", ps.p.ID, d)
-							ps.p.Deliver(d, n)
-						}
-					})
-				} else if ps.p.FinPending(d) {
-					add(w, func() {
-						r.Logf("deliver pair %d %v FIN", ps.p.ID, d)
-						ps.p.DeliverFin(d)
-					})
-				}
-			}
-		}
-		for _, d := range h.net.Pending() {
-			d := d
-			add(60, func() {
-				switch {
-				case src.Chance(pRefuse, "refuse"):
-					r.Fault("connect_refused")
-					r.Logf("refuse dial %s", d.Addr)
-					h.net.Refuse(d)
-				case src.Chance(pBlackhole, "dial_blackhole"):
-					r.Fault("connect_blackholed")
-					r.Logf("blackhole dial %s until its timeout", d.Addr)
-					advance(h.net.DialTimeout)
-				default:
-					acceptDial(d)
-				}
-			})
-		}
-		wt := wTime
-		if len(acts) > 0 {
-			wt = wTime/4 + 1 // something is in flight: mostly let it arrive before time moves on
-		}
-		add(wt, func() {
-			d := durs(1, 5, 20, 100, 500, 2000)[src.Weighted([]int{6, 5, 4, 3, 2, 1}, "sched_dt")]
-			r.Logf("advance %v", d)
-			advance(d)
-		})
-		add(wFeed, feedBurst)
-		// slow-reader scenario: a young connection with a bounded send buffer stops being read while upstream
-		// keeps changing and time passes, so the server's sender blocks and falls behind
-		if lag := 5*h.maxFallBehind/2 + h.grace; wStall > 0 {
-			for _, ps := range pairs {
-				ps := ps
-				if ps.finiteTill.IsZero() || ps.p.IsCut() || ps.p.IsReset() || ps.finiteTill.Sub(now) < lag+lag/4 {
-					continue
-				}
-				add(wStall, func() {
-					ps.stallUntil[simnet.S2C] = time.Now().Add(lag)
-					r.Fault("slow_reader_scenario")
-					r.Logf("slow reader: pair %d s2c stalled for %v while upstream keeps writing", ps.p.ID, lag)
-					for n := 0; n < 5; n++ {
-						feedBurst()
-						advance(lag / 5)
-					}
-				})
-			}
-		}
-		// faults: one action per kind, the victim is drawn when it fires
-		var victims []*pairState
-		for _, ps := range pairs {
-			if !ps.p.IsCut() && !ps.p.IsReset() {
-				victims = append(victims, ps)
-			}
-		}
-		if len(victims) > 0 {
-			victim := func() *pairState { return victims[src.Intn(len(victims), "victim")] }
-			add(wStall, func() {
-				ps := victim()
-				d := simnet.Dir(src.Intn(2, "stall_dir"))
-				if d == simnet.C2S {
-					d = simnet.S2C // index 0 = the common case: slow reader at the client
-				} else {
-					d = simnet.C2S
-				}
-				dur := h.pick(durs(50, 300, 1000, 3000, 8000, 40000), "stall_for")
-				ps.stallUntil[d] = time.Now().Add(dur)
-				r.Fault("stall_" + d.String())
-				r.Logf("stall pair %d %v for %v", ps.p.ID, d, dur)
-			})
-			add(wReset, func() {
-				ps := victim()
-				ph := phaseOf(ps)
-				if n := ps.p.InFlight(simnet.S2C); n > 1 && src.Chance(500, "reset_after_partial") {
-					f := src.Range(1, 7, "reset_chunk_eighths")
-					k := n * f / 8
-					if k < 1 {
-						k = 1
-					}
-					r.Logf("deliver pair %d s2c %d/8 then reset", ps.p.ID, f)
-					ps.p.Deliver(simnet.S2C, k)
-					h.settle()
-					r.Fault("reset_after_partial_delivery")
-					ph = phaseOf(ps)
-				}
-				r.Fault("reset_in_" + ph)
-				r.Logf("reset pair %d (%s)", ps.p.ID, ph)
-				ps.p.Reset()
-			})
-			add(wCut, func() {
-				ps := victim()
-				r.Fault("half_open")
-				r.Logf("cut pair %d (half-open until timeouts)", ps.p.ID)
-				unbound(ps)
-				ps.p.Cut()
-			})
-		}
-		if len(pairs) > 0 {
-			add(wGovern, func() {
-				n := src.Intn(len(pairs)+1, "governor_max")
-				if h.maxConns < 1000 {
-					n = 1000
-				}
-				r.Fault("governor_limit")
-				r.Op("SetMaxConns(%d)", n)
-				setMaxConns(n)
-			})
-		}
-		var running []*slot
-		for _, s := range h.slots {
-			s := s
-			if alive(s.cur) {
-				running = append(running, s)
-			} else {
-				add(10, func() { newInc(s) })
-			}
-		}
-		if len(running) > 0 {
-			add(wChurn, func() {
-				s := running[src.Intn(len(running), "churn_victim")]
-				r.Fault("client_stopped")
-				r.Op("stop client %s", s.cur.name)
-				stopClient(s.cur)
-			})
-		}
-		acts[src.Weighted(weights(acts), "sched_pick")].fn()
+		acts[src.Weighted(ws, "sched_pick")].fn()
 	}
 
 	// ---- quiesce: faults off, upstream settles, everything is delivered promptly
+	h.act++
+	h.sub = 0
 	h.settle()
 	r.Logf("---- quiesce")
 	h.mu.Lock()
@@ -1197,7 +1257,7 @@ func simulate(r *core.R) {
 		unbound(ps)
 		ps.stallUntil = [2]time.Time{}
 		if ps.p.IsCut() {
-			r.Logf("cut pair %d is reset", ps.p.ID)
+			h.dbg("cut pair %d is reset", ps.p.ID)
 			ps.p.Reset()
 		}
 	}
@@ -1217,35 +1277,27 @@ func simulate(r *core.R) {
 		}
 	}
 	bound := 3*(h.readTimeout+effPong+h.srvWriteTO+h.cliWriteTO+h.handshakeTO) + h.net.DialTimeout + 30*time.Second
-	// drain delivers everything deliverable and accepts every dial, in a drawn order, until nothing is left.
+	// drain accepts every dial and delivers everything, in creation order, until a whole pass finds nothing.
 	drain := func() {
 		for guard := 0; ; guard++ {
 			if guard > 100000 {
 				r.HarnessError("transport never drained")
 			}
+			h.act++
+			h.sub = 0
 			h.settle()
-			var acts []func()
-			for _, ps := range livePairs() {
-				for _, d := range []simnet.Dir{simnet.C2S, simnet.S2C} {
-					ps, d := ps, d
-					if !readerOpen(ps, d) {
-						continue
-					}
-					if n := ps.p.InFlight(d); n > 0 {
-						acts = append(acts, func() { r.Logf("deliver pair %d %v all", ps.p.ID, d); ps.p.Deliver(d, n) })
-					} else if ps.p.FinPending(d) {
-						acts = append(acts, func() { r.Logf("deliver pair %d %v FIN", ps.p.ID, d); ps.p.DeliverFin(d) })
-					}
-				}
-			}
+			did := false
 			for _, d := range h.net.Pending() {
-				d := d
-				acts = append(acts, func() { acceptDial(d) })
+				acceptDial(d)
+				h.settle()
+				did = true
 			}
-			if len(acts) == 0 {
+			if sweep(0, true) {
+				did = true
+			}
+			if !did {
 				return
 			}
-			acts[src.Intn(len(acts), "sched_quiesce_pick")]()
 		}
 	}
 	judged := func() []*inc {
